@@ -72,7 +72,7 @@ def cxx_str(t):
     return '"' + t.replace("\\", "\\\\").replace('"', '\\"') + '"'
 
 
-def render_grammar(gi, case, with_cases=True):
+def render_grammar(gi, case, with_cases=True, lite=False):
     g = case["grammar"]
     ns = "g%d" % gi
     nN = g["nN"]
@@ -153,7 +153,16 @@ def render_grammar(gi, case, with_cases=True):
     out.append("#define G%d_ARGS N%d, terms(%s), nterms(%s), rules(\\\n    %s)" % (
         gi, g["root"], ", ".join(terms), ", ".join("N%d" % i for i in range(nN)), ", \\\n    ".join(rules)))
     out.append("constexpr parser p(G%d_ARGS);" % gi)
-    if with_cases:
+    if with_cases and lite:
+        # run-time only (C01/C02/C09 end-to-end through the DSL): the compile-time constructed parser, two run-time buffers
+        out.append("void run_all() {")
+        for k, inp in enumerate(case["inputs"]):
+            lit = cstr(bytes.fromhex(inp["hex"]))
+            n = len(bytes.fromhex(inp["hex"]))
+            opts = "parse_options{}.set_skip_whitespace(%s).set_skip_newline(%s)" % ("true" if inp["ws"] else "false", "true" if inp["nl"] else "false")
+            out.append('  { std::printf("CASE %s %d ce=9:0"); parse_options o = %s; static const char lit[] = %s; hh::rt("sb", p, o, string_buffer(std::string(lit, %d))); hh::rt("sv", p, o, string_view_buffer(std::string_view(lit, %d))); std::printf("\\n"); }' % (ns, k, opts, lit, n, n))
+        out.append("}")
+    elif with_cases:
         for k, inp in enumerate(case["inputs"]):
             lit = cstr(bytes.fromhex(inp["hex"]))
             opts = "parse_options{}.set_skip_whitespace(%s).set_skip_newline(%s)" % ("true" if inp["ws"] else "false", "true" if inp["nl"] else "false")
@@ -174,10 +183,10 @@ def render_grammar(gi, case, with_cases=True):
     return "\n".join(out)
 
 
-def render_program(cases, idxs):
+def render_program(cases, idxs, lite=False):
     parts = [PRELUDE]
     for gi in idxs:
-        parts.append(render_grammar(gi, cases[gi]))
+        parts.append(render_grammar(gi, cases[gi], True, lite))
     parts.append("int main() { hh::big_stack([] {")
     for gi in idxs:
         parts.append("  g%d::run_all();" % gi)
@@ -382,8 +391,9 @@ def emit_cases(seed, n, work, spelling=True):
 def run(pid, tier, seed, work, viol_dir, known_ids=()):
     t0 = time.time()
     excluded = {}
-    ncases = {"C07": {"quick": 24, "thorough": 240}, "C17": {"quick": 8, "thorough": 60}, "C13": {"quick": 16, "thorough": 160}}[pid][tier]
-    cases, log = emit_cases(seed % 0x7FFFFFFF or 1, ncases, work, spelling=(pid == "C07"))
+    ncases = {"C07": {"quick": 24, "thorough": 240}, "C17": {"quick": 8, "thorough": 60}, "C13": {"quick": 16, "thorough": 160},
+              "C01": {"quick": 16, "thorough": 160}, "C02": {"quick": 16, "thorough": 160}, "C09": {"quick": 16, "thorough": 160}}[pid][tier]
+    cases, log = emit_cases((seed + {"C01": 101, "C02": 202, "C09": 909}.get(pid, 0)) % 0x7FFFFFFF or 1, ncases, work, spelling=(pid in ("C07", "C01", "C02", "C09")))
     if cases is None:
         print("HARNESS-BUILD-FAILED engine=e_grammar (emit)")
         print(log)
@@ -398,14 +408,15 @@ def run(pid, tier, seed, work, viol_dir, known_ids=()):
     def lab(k, n=1):
         labels[k] = labels.get(k, 0) + n
 
-    if pid == "C07":
+    lite = pid in ("C01", "C02", "C09")
+    if pid == "C07" or lite:
         per_tu = 1
         groups = [list(range(i, min(i + per_tu, len(cases)))) for i in range(0, len(cases), per_tu)]
         jobs = []
         for gi, idxs in enumerate(groups):
             src = os.path.join(work, "prog_%d.cpp" % gi)
-            open(src, "w").write(render_program(cases, idxs))
-            for cxx in ("g++", "clang++"):
+            open(src, "w").write(render_program(cases, idxs, lite))
+            for cxx in (("clang++",) if (lite and gi % 2) else ("g++",) if lite else ("g++", "clang++")):
                 jobs.append((gi, idxs, src, cxx))
         with ThreadPoolExecutor(max_workers=16) as ex:
             results = list(ex.map(lambda j: (j, compile_and_run(j[2], j[3])), jobs))
@@ -439,6 +450,19 @@ def run(pid, tier, seed, work, viol_dir, known_ids=()):
                             d[tag].split(":")[0] == str(want_acc) and (not want_acc or d[tag].split(":")[1] == want_val) and d[tag].split(":")[2] == want_msg for tag in ("sb", "sv", "sbc", "r_sb", "r_sv")):
                         excluded["F11"] = excluded.get("F11", 0) + 1
                         continue
+                    elif lite:
+                        for tag in ("sb", "sv"):
+                            a, v, m = d[tag].split(":")
+                            if a == "EXC":
+                                what = "run-time parse (%s) threw: %s (%s)" % (tag, bytes.fromhex(m).decode("utf-8", "replace"), cxx)
+                            elif int(a) != want_acc:
+                                what = ("a derivable input was rejected" if want_acc else "an underivable input was accepted") + " by a parser written in the DSL (%s, %s)" % (tag, cxx)
+                            elif pid == "C02" and want_acc and v != want_val:
+                                what = "result differs from the bottom-up evaluation of the derivation tree (%s, %s)" % (tag, cxx)
+                            elif pid == "C09" and m != want_msg:
+                                what = "error report differs from the reference (%s, %s)" % (tag, cxx)
+                            if what:
+                                break
                     else:
                         ce = d["ce"].split(":")
                         if ce[0] == "-1":
@@ -461,7 +485,7 @@ def run(pid, tier, seed, work, viol_dir, known_ids=()):
                         vp = os.path.join(viol_dir, "%s_%s.json" % (pid, hashlib.sha1((json.dumps(case["grammar"]) + inp["hex"] + cxx).encode()).hexdigest()[:12]))
                         one = dict(case)
                         one["inputs"] = [inp]
-                        json.dump({"check": pid, "kind": "program", "compiler": cxx, "what": what, "observed": d, "cases": [one], "idxs": [0], "source": render_program([one], [0])}, open(vp, "w"))
+                        json.dump({"check": pid, "kind": "program", "lite": lite, "compiler": cxx, "what": what, "observed": d, "cases": [one], "idxs": [0], "source": render_program([one], [0], lite)}, open(vp, "w"))
                         violations.append((what, vp))
                         continue
                     ntoks = inp.get("tokens", 0)
@@ -610,6 +634,13 @@ def replay(path):
             g = got.get(("g0", k))
             want_acc = 1 if inp["accept"] else 0
             want_val = inp["value"] if inp["accept"] else "0"
+            if d.get("lite"):
+                for tag in ("sb", "sv"):
+                    a, v, m = g[tag].split(":") if g else ("EXC", "0", "")
+                    if a == "EXC" or int(a) != want_acc or (d["check"] == "C02" and want_acc and v != want_val) or (d["check"] == "C09" and m != inp["messages_hex"]):
+                        bad += 1
+                        break
+                continue
             if g is None or g["ce"].split(":")[0] == "-1" or int(g["ce"].split(":")[0]) != want_acc or (want_acc and g["ce"].split(":")[1] != want_val):
                 bad += 1
                 continue
